@@ -62,6 +62,7 @@ def sigmak_case(case):
     import thejoker.units as xu
     from thejoker.distributions import FixedCompanionMass
     tr = {"id": case["id"], "kind": "sigmak", "sK0": case["sK0"], "p3": case["p3"], "r": case["r"], "maxK": case["maxK"], "obs": [0, 0],
+          "mu": list(case.get("mu", [0, 1])), "muobs": [0, 0], "zs": [[0, 1], [1, 1], [-2, 1]], "zsq": [[0, 0]] * 3,
           "raised": False, "kf": ""}
     try:
         p3 = Fraction(*case["p3"])
@@ -78,12 +79,23 @@ def sigmak_case(case):
             kw = {}
             if not (case.get("default_maxk") and Fraction(*case["maxK"]) == 500):
                 kw["max_K"] = np.float64((float(Fraction(*case["maxK"])) * kms).to_value(mku)) * mku     # the cap in ITS OWN unit
+            mu_kms = float(Fraction(*tr["mu"]))
+            if mu_kms != 0.0 or case.get("explicit_mu"):
+                kw["mu"] = np.float64((mu_kms * kms).to_value(ku))          # the declared mean, a bare number in K's unit
             K = FixedCompanionMass("K", P=P, e=ev, sigma_K0=np.float64((float(Fraction(*case["sK0"])) * kms).to_value(ku)) * ku,
                                    P0=np.float64((P0d * u.day).to_value(p0u)) * p0u, **kw)
-            sigma = K.owner.op.dist_params(K.owner)[1]
-            f = pytensor.function([P, ev], sigma, on_unused_input="ignore")
-            val = float(f(np.float64((Pd * u.day).to_value(pu)), np.float64(e)))
+            muv, sigma = K.owner.op.dist_params(K.owner)[:2]
+            f = pytensor.function([P, ev], [sigma, muv], on_unused_input="ignore")
+            Pv, evv = np.float64((Pd * u.day).to_value(pu)), np.float64(e)
+            val, muval = [float(x) for x in f(Pv, evv)]
+            # the log-density about the declared mean: -2 (ln p(mu + z sigma) - ln p(mu)) = z^2
+            x = pytensor.tensor.dscalar("x")
+            g = pytensor.function([x, P, ev], pm.logp(K, x), on_unused_input="ignore")
+            mu_decl = float((mu_kms * kms).to_value(ku))
+            lp0 = float(g(np.float64(mu_decl), Pv, evv))
+            tr["zsq"] = [rat(-2.0 * (float(g(np.float64(mu_decl + float(Fraction(*z)) * val), Pv, evv)) - lp0), tol=1e-7) for z in tr["zs"]]
         tr["obs"] = rat((val * ku).to_value(kms))
+        tr["muobs"] = rat((muval * ku).to_value(kms), tol=1e-7)
     except Exception as ex:
         tr["raised"] = True
         tr["exc"] = "%s: %s" % (type(ex).__name__, str(ex)[:160])
@@ -119,13 +131,22 @@ def lnprior_case(case):
     import thejoker.units as xu
     from thejoker import JokerPrior
     gl, poly, noff = case["gl"], case["poly"], case["noff"]
+    skind, vu = case.get("skind", "uniform"), case.get("vunits", 1)
     tr = {"id": case["id"], "kind": "lnprior", "gl": gl, "poly": poly, "noff": noff, "sampledS": True, "cols": [], "constok": False,
-          "hascol": False, "insupport": False, "kcondok": True, "raised": False, "kf": ""}
+          "hascol": False, "insupport": False, "kcondok": True, "raised": False, "kf": "", "skind": skind, "vunits": vu,
+          "vdecl": [[30, 1]] * poly, "vobs": [[0, 0]] * poly,
+          "offdecl": [[rat(0.5 * j), [2 + j, 1]] for j in range(noff)], "offobs": []}
     try:
         with pm.Model():
             offs = [xu.with_unit(pm.Normal("dv0_%d" % (j + 1), 0.5 * j, 2.0 + j), u.km / u.s) for j in range(noff)]
-            s = xu.with_unit(pm.Uniform("s", 0.0, 3.0), u.km / u.s)
-            sv = [30 * u.km / u.s / u.day ** i for i in range(poly)]
+            if skind == "uniform":
+                s = xu.with_unit(pm.Uniform("s", 0.0, 3.0), u.km / u.s)
+            else:       # a non-flat jitter density (a flat one only shifts ln_prior by a constant and would hide a missing term)
+                s = xu.with_unit(pm.Lognormal("s", 5.0, 0.8), u.m / u.s)
+            # the same physical widths (30 km/s/d^i) declared in km/s/d^i, m/s/d^i or km/s/yr^i
+            vunit = [u.km / u.s / u.day ** i for i in range(poly)] if vu == 1 else \
+                    [u.m / u.s / u.day ** i for i in range(poly)] if vu == 2 else [u.km / u.s / u.yr ** i for i in range(poly)]
+            sv = [np.float64((30 * u.km / u.s / u.day ** i).to_value(vunit[i])) * vunit[i] for i in range(poly)]
             prior = JokerPrior.default(P_min=case["Pmin"] * u.day, P_max=case["Pmax"] * u.day, sigma_K0=case["sK0"] * u.km / u.s,
                                        P0=case["P0"] * u.day, sigma_v=sv if poly > 1 else sv[0], poly_trend=poly, v0_offsets=offs, s=s)
         n = case["n"]
@@ -135,7 +156,18 @@ def lnprior_case(case):
         names = [c for c in smp.par_names if c != "ln_prior"]
         # support of every drawn value
         P = smp["P"].to_value(u.day); e = np.asarray(smp["e"]); sv_ = smp["s"].to_value(u.km / u.s)
-        ok = bool(np.all((P >= case["Pmin"]) & (P <= case["Pmax"])) and np.all((e >= 0) & (e <= 1)) and np.all((sv_ >= 0) & (sv_ <= 3)))
+        ok = bool(np.all((P >= case["Pmin"]) & (P <= case["Pmax"])) and np.all((e >= 0) & (e <= 1))
+                  and np.all((sv_ >= 0) & ((sv_ <= 3) | (skind != "uniform"))))
+        # the scales that reached the model, in km/s/d^i
+        for i in range(poly):
+            par = prior.pars["v%d" % i]
+            sd = float(par.owner.op.dist_params(par.owner)[1].eval())
+            tr["vobs"][i] = rat((sd * getattr(par, xu.UNIT_ATTR_NAME)).to_value(u.km / u.s / u.day ** i), tol=1e-6)
+        for j in range(noff):
+            par = prior.pars["dv0_%d" % (j + 1)]
+            m_, sd = [float(x.eval()) for x in par.owner.op.dist_params(par.owner)[:2]]
+            un = getattr(par, xu.UNIT_ATTR_NAME)
+            tr["offobs"].append([rat((m_ * un).to_value(u.km / u.s), tol=1e-6), rat((sd * un).to_value(u.km / u.s), tol=1e-6)])
         tr["insupport"] = ok
         # joint log-density of each row, every term evaluated at the row's own values (parents substituted)
         pars = prior.pars
@@ -204,17 +236,21 @@ def run(ctx, selftest=False):
             xs = [[a, 1], [b, 1], [a * 2, 1], [a * 3, 1], [b, 2], [a, 2], [b * 2, 1], [a * 2 ** (2 * k), 1], [1, 3], [b + 1, 1]]
             cases.append({"id": "lu-%d" % n_, "kind": kind, "i": i, "k": k, "u4s": [0, 1, 2, 3, 4], "xs": xs})
         elif kind == "sigmak":
+            if quick and (n_ + n_ // 3 + n_ // 9) % 3 != ctx.seed % 3:   # quick: a third of the (scale x cap x mean) lattice, every value of every factor
+                continue
             variants = [("d", "d", "km/s", "km/s"), ("d", "yr", "m/s", "km/s"), ("oct", "d", "km/s", "m/s"), ("yr", "oct", "m/s", "m/s")]
             for j, (pu, p0u, ku, mku) in enumerate(variants if not quick else [variants[n_ % 4], variants[(n_ + 1) % 4]]):
                 cases.append({"id": "sk-%d-%d" % (n_, j), "kind": kind, "sK0": list(c["sK0"]), "p3": list(c["p3"]), "r": list(c["r"]),
-                              "maxK": list(c["maxK"]), "punit": pu, "p0unit": p0u, "kunit": ku, "maxkunit": mku,
+                              "maxK": list(c["maxK"]), "mu": list(c["mu"]), "explicit_mu": bool(n_ % 2),
+                              "punit": pu, "p0unit": p0u, "kunit": ku, "maxkunit": mku,
                               "default_maxk": bool((n_ + j) % 2)})
         else:
-            if quick and (c["poly"] + c["noff"] + int(c["gl"])) % 2 == 0:
+            if quick and (c["poly"] + c["noff"] + int(c["gl"]) + c["vunits"] + int(c["skind"] == "uniform")) % 3 != 0:
                 continue
             if not c["sampledS"]:
                 continue
             cases.append({"id": "lp-%d" % n_, "kind": kind, "gl": c["gl"], "poly": c["poly"], "noff": c["noff"], "n": 6, "seed": n_,
+                          "skind": c["skind"], "vunits": c["vunits"],
                           "Pmin": rnd.choice([1.0, 2.0]), "Pmax": rnd.choice([4096.0, 65536.0]), "sK0": rnd.choice([5.0, 30.0]),
                           "P0": rnd.choice([8.0, 365.25])})
     for w in ("global", "short", "long"):
